@@ -61,6 +61,8 @@ func checkC18(r *Run) {
 	checkReadWriteContract(r, p.Fn("ramfs:(*FileEnt).Write"), "return-range")
 	c18DataPlacement(r)
 	c18ChildTable(r)
+	c18Cascade(r)
+	c18WalkChain(r)
 	// explicit panics
 	var roots []*ssa.Function
 	for _, fn := range p.FuncsOfPkg("ramfs") {
@@ -448,4 +450,160 @@ func c18ChildTable(r *Run) {
 	}
 	r.Floor("child-table", nIns, 1, "insertions into FileEnt.children")
 	r.Floor("child-table", nDel, 1, "deletions from FileEnt.children")
+}
+
+// c18Cascade: a directory's child table is cleared only after its children were released: every store of nil to
+// FileEnt.children (outside constructors) is dominated by a range over that table whose body calls decref. Clearing
+// it first (or without the loop) leaves the subtree with references nobody will ever drop.
+func c18Cascade(r *Run) {
+	p := r.P
+	n := 0
+	for _, fn := range p.FuncsOfPkg("ramfs") {
+		fn := fn
+		eachInstr(fn, func(in ssa.Instruction) {
+			st, ok := in.(*ssa.Store)
+			if !ok || !isNilConst(st.Val) {
+				return
+			}
+			f, ok := st.Addr.(*ssa.FieldAddr)
+			if !ok || !strings.HasSuffix(shortType(f.X.Type()), "ramfs.FileEnt") || fieldName(f.X.Type(), f.Field) != "children" {
+				return
+			}
+			if a, isA := f.X.(*ssa.Alloc); isA {
+				if _, _, lit := allocFields(a); lit {
+					return // constructor literal
+				}
+			}
+			n++
+			okLoop := false
+			eachInstr(fn, func(in2 ssa.Instruction) {
+				rg, ok := in2.(*ssa.Range)
+				if !ok || !instrDominates(rg, st) {
+					return
+				}
+				// the range is over this node's children …
+				u, ok := rg.X.(*ssa.UnOp)
+				if !ok {
+					return
+				}
+				f2, ok := u.X.(*ssa.FieldAddr)
+				if !ok || f2.X != f.X || fieldName(f2.X.Type(), f2.Field) != "children" {
+					return
+				}
+				// … and its body releases each child
+				for _, c := range findCalls(fn, "(*ramfs.FileEnt).decref") {
+					if rg.Block().Dominates(c.Block()) || rg.Block() == c.Block() {
+						okLoop = true
+					}
+				}
+			})
+			r.Check(okLoop, "cascade", fnName(fn)+": the child table is cleared only after every child was released", st.Pos(),
+				"children is set to nil before (or without) the loop that decrefs the children: the children of a dying directory keep a reference with no parent link")
+		})
+	}
+	r.Floor("cascade", n, 1, "clearing of a child table")
+}
+
+// c18WalkChain: in FileHandle.Walk the first ndel entries of the walk result stand for the '..' steps; the new
+// handle's parent chain is kept-parents ++ [pivot] ++ ans[ndel:]. Whatever the code shape (index loop, copy, append),
+// an entry of ans placed into the new chain is taken at an offset of at least ndel.
+func c18WalkChain(r *Run) {
+	p := r.P
+	fn := p.Fn("ramfs:(FileHandle).Walk")
+	if fn == nil {
+		r.Undecided("walk-chain", "(FileHandle).Walk", token.NoPos, "anchor not found")
+		return
+	}
+	fa := p.FA(fn)
+	// ans: the []*FileEnt made with length ndel and then extended by append
+	var ansMake *ssa.MakeSlice
+	var ans ssa.Value
+	eachInstr(fn, func(in ssa.Instruction) {
+		c, ok := in.(*ssa.Call)
+		if !ok {
+			return
+		}
+		if b, isB := c.Call.Value.(*ssa.Builtin); isB && b.Name() == "append" {
+			if ms, isM := c.Call.Args[0].(*ssa.MakeSlice); isM && strings.HasSuffix(shortType(ms.Type()), "[]*ramfs.FileEnt") {
+				ansMake, ans = ms, c
+			}
+		}
+	})
+	if ans == nil {
+		r.Undecided("walk-chain", "FileHandle.Walk: walk result", fn.Pos(), "cannot find the slice of walked entries (make + append)")
+		return
+	}
+	ndel := fa.Lin(ansMake.Len)
+	// the new chain: a []*FileEnt MakeSlice other than ans
+	n := 0
+	derivesFromAns := func(v ssa.Value) (low *Lin, ok bool) {
+		if v == ans {
+			return linConst(0), true
+		}
+		if sl, isS := v.(*ssa.Slice); isS && sl.X == ans {
+			if sl.Low == nil {
+				return linConst(0), true
+			}
+			return fa.Lin(sl.Low), true
+		}
+		return nil, false
+	}
+	eachInstr(fn, func(in ssa.Instruction) {
+		switch x := in.(type) {
+		case *ssa.UnOp:
+			// p = ans[j] flowing into the chain
+			if x.Op != token.MUL {
+				return
+			}
+			ia, ok := x.X.(*ssa.IndexAddr)
+			if !ok || ia.X != ans {
+				return
+			}
+			// only reads that feed the new chain (stored into a []*FileEnt element), not the qid loop
+			feeds := false
+			var walk func(v ssa.Value, d int)
+			walk = func(v ssa.Value, d int) {
+				if d > 3 {
+					return
+				}
+				for _, rf := range referrers(v) {
+					switch y := rf.(type) {
+					case *ssa.Store:
+						if _, isIA := y.Addr.(*ssa.IndexAddr); isIA && y.Val == v {
+							feeds = true
+						}
+					case *ssa.Phi:
+						walk(y, d+1)
+					}
+				}
+			}
+			walk(x, 0)
+			if !feeds {
+				return
+			}
+			n++
+			j := fa.Lin(ia.Index)
+			facts := fa.FactsAt(x, j, ndel)
+			r.Check(EntailsLE(facts, ndel, j) || fa.entailsPhiSplit(x, facts, ndel, j, 2), "walk-chain", "FileHandle.Walk: entries copied into the new chain are taken from ans[ndel:]", x.Pos(),
+				"an entry standing for a '..' step is placed into the new handle's chain: the handle's entry/parents do not match the walked path", factStrings(facts)...)
+		case *ssa.Call:
+			b, ok := x.Call.Value.(*ssa.Builtin)
+			if !ok || (b.Name() != "copy" && b.Name() != "append") {
+				return
+			}
+			if x == ans {
+				return
+			}
+			src := x.Call.Args[1]
+			low, isAns := derivesFromAns(src)
+			if !isAns {
+				return
+			}
+			n++
+			facts := fa.FactsAt(x, low, ndel)
+			r.Check(EntailsLE(facts, ndel, low), "walk-chain", "FileHandle.Walk: entries copied into the new chain are taken from ans[ndel:]", x.Pos(),
+				"the walked entries are copied into the new chain from the start of ans, including those that stand for '..' steps: the new handle refers to the wrong node", factStrings(facts)...)
+		}
+	})
+	r.Floor("walk-chain", n, 1, "transfers from the walk result into the new handle's chain")
 }
